@@ -136,8 +136,8 @@ def run(tier, seed):
     for cfg in CONFIGS[tier]:
         explore.bfs(h, cfg, DEPTH[tier], col, seed=seed, result=res, merge_all=(tier == 'thorough'),
                     run_state_checks=True)
-        for kind in ('coop', 'silent', 'refuse'):
-            kk, win = (2, 8) if (tier == 'quick' and kind != 'coop') else (DEVK[tier], None)
+        for kind in ('coop', 'lateclose', 'silent', 'refuse'):
+            kk, win = (2, 10) if tier == 'quick' else (DEVK[tier], None)
             st = explore.deviations(h, cfg, kk, 40, col, script_kw={'kind': kind}, window=win)
             dev.append({'cfg': cfg, 'script': kind, 'executions': st['executions'], 'events': st['events'], 'k': st['k'], 'window': st['window']})
     explore.close_pool()
